@@ -18,7 +18,9 @@ ASSUMPTIONS = [
     "regex and partial-name specifications are excluded (renaming changes what they match); layers are defined by "
     "name lists only",
     "outcomes are compared after mapping names back through the inverse renaming, component by component",
-    "scan-level identity (internal-prefix test, sibling root.ab next to root.a) is part of the scan checks",
+    "scan-level identity: each abstract project is scanned under the three namings with the same configurations; the "
+    "sets of failing Trace_Scan clauses must be identical (a scan that conforms under collision-free names must "
+    "conform under adversarial ones)",
 ]
 
 KINDS = ("clean", "adv", "adv2", "adv3")
@@ -59,6 +61,47 @@ def label_episode(rng, w, n_calls=3):
             mods = list({tuple(m[:j]) for j in range(1, len(m) + 1) if rng.random() < 0.6} | set(mods))[:8]
         items += c17.viz_items(rng, mods, k0=k, with_rename=True, render="clean")
     return {"driver": "labels", "world": w.json(), "render": "clean", "items": items}
+
+
+FIXED = {"__init__", "*", "helper", "Thing", "thing", "handlers"}
+
+
+def rename_project(p, rn):
+    """The same abstract project with every path component renamed by the injective renaming rn."""
+    c = lambda x: x if x in FIXED else rn.comp(x)
+    n = lambda name: [c(x) for x in name]
+    return {"root": c(p["root"]), "dirs": [n(d) for d in p["dirs"]],
+            "files": [{"name": n(f["name"]), "py": f["py"]} for f in p["files"]],
+            "stmts": [dict(s, file=n(s["file"]), module=n(s["module"]), names=[c(x) for x in s["names"]]) for s in p["stmts"]],
+            "rel_dirs": [n(d) for d in p.get("rel_dirs", [])]}
+
+
+def scan_pair_specs(ctx, rng):
+    """Scan-level identity: each abstract project is scanned under a collision-free and under adversarial names
+    (siblings that are string prefixes of one another, directories whose name starts with the root's name, external
+    look-alikes of internal names) with the same configurations."""
+    from harness import names, projgen
+    from harness.checks import scan_common as sc
+
+    pairs = []
+    for _ in range(60 if ctx.quick else 1200):
+        p = projgen.random_project(rng, max_depth=rng.choice([2, 3, 4]), n_stmts=rng.randint(6, 30), rel_abs=True)
+        variants = []
+        for mk in (names.rho_clean, names.rho_adversarial, names.rho_adversarial2):
+            rn = mk()
+            q = rename_project(p, rn)
+            ep = sc.ScanEpisode(q)
+            subs = [d for d in q["dirs"] if len(d) > 1]
+            idx = sorted(range(len(subs)), key=lambda i: p["dirs"][i + 1] if i + 1 < len(p["dirs"]) else [])[:3]
+            ep.scan()
+            ep.scan(ext=True)
+            ep.scan(limit=1)
+            for i in idx:
+                ep.scan(mpath=subs[i])
+                ep.scan(mpath=subs[i], ext=True)
+            variants.append(ep.spec)
+        pairs.append(variants)
+    return pairs
 
 
 def run(ctx):
@@ -107,6 +150,31 @@ def run(ctx):
                         "failing_or_labelled": sum(1 for ep in episodes for e in ep
                                                    if e.get("out") in ("fail", "ok"))}
         laws += n
+    # --- scans: the same abstract project under three namings must conform (or not) in exactly the same way
+    from harness.checks import scan_common as sc
+    triples = scan_pair_specs(ctx, rng)
+    flat = [v for t in triples for v in t]
+    tr, seps, sfails = sc.run_and_validate(flat)
+    cov_events += tr.events; episodes_all += len(seps); tr_states += tr.states; tr_trans += tr.transitions
+    by_ep = {}
+    for f in sfails:
+        if f["prop"] != "MACHINERY":
+            by_ep.setdefault(f["episode"], set()).add((f["clause"], json.dumps(f["event"].get("id") if isinstance(f["event"], dict) else None)))
+        else:
+            fails.append(f)
+    scan_diffs = 0
+    for t in range(len(triples)):
+        sets = [by_ep.get(3 * t + k, set()) for k in range(3)]
+        if sets[1] != sets[0] or sets[2] != sets[0]:
+            scan_diffs += 1
+            k = 1 if sets[1] != sets[0] else 2
+            fails.append({"prop": "C14", "clause": "scan-conformance-changes-under-renaming",
+                          "detail": {"clean": sorted(sets[0]), "adversarial": sorted(sets[k])},
+                          "event": {"renaming": ["clean", "adv", "adv2"][k]}, "spec": flat[3 * t + k],
+                          "episode_events": seps[3 * t + k]})
+    outs["Trace_Scan"] = {"episodes": len(seps), "rename_law_instances": len(triples) * 2, "failing_or_labelled": 1,
+                          "differences": scan_diffs}
+    laws += len(triples) * 2
     if not all(v["rename_law_instances"] and v["failing_or_labelled"] for v in outs.values()):
         raise tlc.MachineryError(f"vacuous run: {outs}")
     cov = {"states": mc.distinct + tr_states, "transitions": mc.generated + tr_trans,
@@ -125,6 +193,11 @@ def run(ctx):
 
 def replay(ctx, rp):
     spec = rp["spec"]
+    if spec["driver"] == "scan":
+        from harness.checks import scan_common as sc
+        tr, eps, fs = sc.run_and_validate([spec], procs=1)
+        fs = [dict(f, prop="C14", clause="scan-conformance-changes-under-renaming") for f in fs if f["prop"] != "MACHINERY"]
+        return CheckResult(fails=fs, coverage={"replayed_events": tr.events})
     module = {"rules": "Trace_Rules", "layers": "Trace_Layers", "labels": "Trace_Labels"}[spec["driver"]]
     episodes = runner.run_specs([spec], 1)
     tr = trace.validate(episodes, f"{module}.tla", f"{module}.cfg", procs=1)
